@@ -211,4 +211,5 @@ func main() {
 	genWithDefaults(repo, out)
 	genListFns(repo, out)
 	genBackupFn(repo, out)
+	genQuoteFn(repo, out)
 }
